@@ -39,6 +39,7 @@ package adapter
 //@ func (a *IBCAdapter) ParsePacket(ccPacket) (result, err)
 //@   requires[inv]  a != nil && a.parser != nil
 //@   ensures[base] err == nil ==> result != nil && payloadFieldsOK(result.Payload) && !isnil(result.Coin.Amount)
+//@   ensures[base] err == nil ==> validDenom(result.Coin.Denom) && val(result.Coin.Amount) >= 0
 //@   ensures[C16]  err == nil ==> istype(ccPacket, "*types/component/adapter.IBCCrossChainPacket") && ibcPkt(ccPacket) != nil && isICS20(bytesof(ibcPkt(ccPacket).data))
 //@   ensures[C16]  err == nil ==> prefixof(denomPrefix(ibcPkt(ccPacket).sourcePort, ibcPkt(ccPacket).sourceChannel), dataOf(ccPacket).Denom)
 //@   ensures[C16]  err == nil ==> result.Coin.Denom == unprefixed(dataOf(ccPacket).Denom, ibcPkt(ccPacket).sourcePort, ibcPkt(ccPacket).sourceChannel) && tracePath(result.Coin.Denom) == ""
